@@ -321,3 +321,172 @@ def build(desc):
 
 def register_family(name, fn):
     FAMILIES[name] = fn
+
+
+# ------------------------------------------------------------------------------------------
+# families biased towards what the optimisation passes touch (C04)
+
+def build_constop(d):
+    """gate with 0/1/2 constant operands: op in ~&|^n, width w, const positions cp (subset of {0,1}), values"""
+    b = pyrtl.working_block()
+    op, w = d['op'], d['w']
+    vals = d['vals']
+    args = []
+    for i in range(1 if op == '~' else 2):
+        if i in d['cp']:
+            args.append(pyrtl.Const(vals[i], bitwidth=w))
+        else:
+            args.append(pyrtl.Input(w, 'a%d' % i))
+    t = pyrtl.WireVector(w, 't')
+    _net(b, op, None, args, [t])
+    o = pyrtl.Output(w, 'o')
+    if d.get('through_reg'):
+        r = pyrtl.Register(w, 'r')
+        r.next <<= t
+        o <<= r
+    else:
+        o <<= t
+    if not any(isinstance(a, pyrtl.Input) for a in args):
+        x = pyrtl.Input(1, 'x')
+        o2 = pyrtl.Output(1, 'o2')
+        o2 <<= x
+    return b
+
+
+def constop_cases():
+    out = []
+    for op in '~&|^n':
+        for w in (1, 2, 3):
+            m = (1 << w) - 1
+            cps = [[0]] if op == '~' else [[0], [1], [0, 1]]
+            for cp in cps:
+                for vals in itertools.product(sorted({0, 1, m, m >> 1}), repeat=2):
+                    for tr in (False, True):
+                        if tr and not (w == 1 and vals[0] in (0, 1)):
+                            continue
+                        out.append({'fam': 'CONSTOP', 'op': op, 'w': w, 'cp': cp, 'vals': list(vals), 'through_reg': tr})
+    return out
+
+
+def build_dup(d):
+    """duplicated sub-expressions with commuted / non-commuted operands"""
+    op, w = d['op'], d['w']
+    a, c = pyrtl.Input(w, 'a'), pyrtl.Input(w, 'b')
+    f = {'+': lambda x, y: x + y, '-': lambda x, y: x - y, '*': lambda x, y: x * y, '&': lambda x, y: x & y,
+         '|': lambda x, y: x | y, '^': lambda x, y: x ^ y, 'n': lambda x, y: x.nand(y), '<': lambda x, y: x < y,
+         '>': lambda x, y: x > y, '=': lambda x, y: x == y, 'c': lambda x, y: pyrtl.concat(x, y),
+         'x': lambda x, y: pyrtl.select(x[0], x, y)}[op]
+    e1, e2, e3 = f(a, c), f(c, a), f(a, c)
+    for i, e in enumerate((e1, e2, e3)):
+        o = pyrtl.Output(len(e), 'o%d' % i)
+        o <<= e
+    if d.get('const'):
+        k1, k2 = pyrtl.Const(d['const'], bitwidth=w), pyrtl.Const(d['const'], bitwidth=w)
+        o = pyrtl.Output(len(f(a, k1)), 'o3')
+        o <<= f(a, k1)
+        o4 = pyrtl.Output(len(f(k2, a)), 'o4')
+        o4 <<= f(k2, a)
+    return pyrtl.working_block()
+
+
+def dup_cases():
+    out = []
+    for op in '+-*&|^n<>=cx':
+        for w in (1, 3):
+            out.append({'fam': 'DUP', 'op': op, 'w': w})
+            out.append({'fam': 'DUP', 'op': op, 'w': w, 'const': (1 << w) - 1})
+    return out
+
+
+def build_misc(d):
+    k = d['kind']
+    w = d.get('w', 3)
+    if k == 'dead_memwrite':
+        # logic that only feeds a memory write port
+        m = pyrtl.MemBlock(bitwidth=w, addrwidth=2, name='m', asynchronous=True)
+        a, c, we = pyrtl.Input(w, 'a'), pyrtl.Input(2, 'wa'), pyrtl.Input(1, 'we')
+        m[c] <<= pyrtl.MemBlock.EnabledWrite((a + 1)[:w] ^ a, we & (a == 1))
+        ra = pyrtl.Input(2, 'ra')
+        o = pyrtl.Output(w, 'o')
+        o <<= m[ra]
+    elif k == 'slices':
+        a = pyrtl.Input(w, 'a')
+        o0, o1, o2 = pyrtl.Output(w, 'o0'), pyrtl.Output(w, 'o1'), pyrtl.Output(w, 'o2')
+        o0 <<= a[0:w]
+        o1 <<= a[::-1]
+        t = a[0:w]
+        o2 <<= t[0:w] & a[:]
+    elif k == 'const_reg':
+        r = pyrtl.Register(w, 'r', reset_value=d.get('rv'))
+        r.next <<= pyrtl.Const(d.get('cv', 1), bitwidth=w)
+        a = pyrtl.Input(w, 'a')
+        o = pyrtl.Output(w, 'o')
+        o <<= r ^ a
+    elif k == 'const_reg_bit':
+        r = pyrtl.Register(1, 'r', reset_value=d.get('rv'))
+        r.next <<= pyrtl.Const(d.get('cv', 1), bitwidth=1)
+        a = pyrtl.Input(1, 'a')
+        o = pyrtl.Output(1, 'o')
+        o <<= r & a
+    elif k == 'wire_chain':
+        a = pyrtl.Input(w, 'a')
+        t1, t2 = pyrtl.WireVector(w, 't1'), pyrtl.WireVector(w, 't2')
+        t1 <<= a
+        t2 <<= t1
+        r = pyrtl.Register(w, 'r')
+        r.next <<= t2
+        o = pyrtl.Output(w, 'o')
+        o <<= r
+        o2 = pyrtl.Output(w, 'o2')
+        o2 <<= t2
+    elif k == 'in_to_out':
+        a = pyrtl.Input(w, 'a')
+        o = pyrtl.Output(w, 'o')
+        o <<= a
+        o2 = pyrtl.Output(w, 'o2')
+        o2 <<= a
+    elif k == 'reg_to_out':
+        a = pyrtl.Input(w, 'a')
+        r = pyrtl.Register(w, 'r', reset_value=d.get('rv'))
+        r.next <<= a
+        o = pyrtl.Output(w, 'o')
+        o <<= r
+    elif k == 'mem_to_out':
+        m = pyrtl.MemBlock(bitwidth=w, addrwidth=2, name='m', asynchronous=True)
+        ra, wa_, wd, we = pyrtl.Input(2, 'ra'), pyrtl.Input(2, 'wa'), pyrtl.Input(w, 'wd'), pyrtl.Input(1, 'we')
+        m[wa_] <<= pyrtl.MemBlock.EnabledWrite(wd, we)
+        o = pyrtl.Output(w, 'o')
+        o <<= m[ra]
+    elif k == 'fanout':
+        a, c = pyrtl.Input(w, 'a'), pyrtl.Input(w, 'b')
+        t = a ^ c
+        outs = [t & a, t | c, t + a, ~t, pyrtl.concat(t, t, t), t[0]]
+        for i, e in enumerate(outs[:d.get('n', 6)]):
+            o = pyrtl.Output(len(e), 'o%d' % i)
+            o <<= e
+    elif k == 'wide_concat':
+        ws = d.get('ws', [1, 2, 3, 1])
+        ins = [pyrtl.Input(x, 'a%d' % i) for i, x in enumerate(ws)]
+        o = pyrtl.Output(sum(ws), 'o')
+        o <<= pyrtl.concat(*ins)
+        o2 = pyrtl.Output(3, 'o2')
+        o2 <<= pyrtl.concat(*ins)[1:4] if sum(ws) >= 4 else pyrtl.concat(*ins)[0:1]
+    else:
+        raise ValueError(k)
+    return pyrtl.working_block()
+
+
+def misc_cases():
+    out = []
+    for k in ('dead_memwrite', 'slices', 'wire_chain', 'in_to_out', 'reg_to_out', 'mem_to_out', 'fanout', 'wide_concat'):
+        for w in (1, 3):
+            out.append({'fam': 'MISC', 'kind': k, 'w': w})
+    out.append({'fam': 'MISC', 'kind': 'reg_to_out', 'w': 3, 'rv': 5})
+    out.append({'fam': 'MISC', 'kind': 'wide_concat', 'w': 3, 'ws': [2, 2, 2, 2, 2]})
+    for rv, cv in ((None, 0), (None, 1), (1, 1), (0, 1), (1, 0)):
+        out.append({'fam': 'MISC', 'kind': 'const_reg_bit', 'rv': rv, 'cv': cv})
+        out.append({'fam': 'MISC', 'kind': 'const_reg', 'w': 3, 'rv': None if rv is None else rv * 5, 'cv': cv * 5})
+    return out
+
+
+FAMILIES.update({'CONSTOP': build_constop, 'DUP': build_dup, 'MISC': build_misc})
